@@ -123,8 +123,87 @@ let parse_op (toks : string list) : op option = match toks with
   | "bulk" :: n :: c :: items -> Some (OBulk (n_of_int (ios n), nat_of_int (ios c), List.map parse_kv items))
   | _ -> None
 
+(* ---------- small-scope state-space exploration (see extract/driver.ml) ----------
+   --explore CAP U MAXSTATES DEPTH START: every logical tree reachable from the start state by
+   `t[k] = v` / `del t[k]` over the keys 0..U-1 (DEPTH 0) or every operation sequence of at most
+   DEPTH such calls; one flat history per (state, operation) pair. *)
+let ident (w : world) : string =
+  match current w with
+  | None -> "NOMAP"
+  | Some s ->
+      let b = Buffer.create 256 in
+      let ik k = string_of_int (int_of_z k.kz) in
+      let rec go t = match t with
+        | PLeaf (_, _, ks, _, _) ->
+            Buffer.add_char b '('; List.iter (fun k -> Buffer.add_string b (ik k); Buffer.add_char b ' ') ks; Buffer.add_char b ')'
+        | PBranch (_, _, ks, cs) ->
+            Buffer.add_char b '['; List.iter (fun k -> Buffer.add_string b (ik k); Buffer.add_char b ' ') ks;
+            List.iter go cs; Buffer.add_char b ']' in
+      go s.troot; Buffer.contents b
+
+let prefix_keys (spec : string) : int list =
+  match String.split_on_char ':' spec with
+  | ["asc"; n] -> List.init (ios n) (fun i -> i)
+  | ["desc"; n] -> let n = ios n in List.init n (fun i -> n - 1 - i)
+  | ["zig"; n] -> let n = ios n in List.init n (fun i -> if i mod 2 = 0 then i / 2 else n - 1 - i / 2)
+  | ["mid"; n] -> let n = ios n in List.init n (fun i -> if i mod 2 = 0 then n / 2 + i / 2 else n / 2 - 1 - i / 2)
+  | ["rnd"; seed; n] ->
+      let n = ios n in
+      let a = Array.init n (fun i -> i) in
+      let st = ref (ios seed * 7919 + 17) in
+      let next m = st := (!st * 1103515245 + 12345) land 0x3fffffff; (!st lsr 8) mod m in
+      for i = n - 1 downto 1 do let j = next (i + 1) in let t = a.(i) in a.(i) <- a.(j); a.(j) <- t done;
+      Array.to_list a
+  | _ -> []
+
+let explore cap u maxstates depth prefix =
+  let (w0', _) = step false w0 (ONew (N0, nat_of_int cap)) in
+  let vstr sid = if sid mod 5 = 0 then "N" else string_of_int (sid * 10) in
+  let setline k sid = Printf.sprintf "set %d %d %s" k sid (vstr sid) in
+  let (ws, path0, sid0) = List.fold_left (fun (w, p, sid) k ->
+      let (w', _) = step false w (OSet (key_of k sid, val_of (vstr sid))) in
+      (w', setline k sid :: p, sid + 1)) (w0', [], 1) (prefix_keys prefix) in
+  let plen0 = List.length path0 in
+  let seen = Hashtbl.create 65536 in
+  let q = Queue.create () in
+  Hashtbl.add seen (ident ws) ();
+  Queue.add (ws, path0, sid0) q;
+  let nh = ref 0 and nstates = ref 1 and truncated = ref false and maxh = ref 0 in
+  let probes = Printf.sprintf "len\nitems - -\nkeys %d %d\nrange %d -\nvalues - %d\npopitem\n" (u / 4) (u - 2) (u / 2) (u / 3) in
+  let tag = Printf.sprintf "xp%d.%d.%s.%d" cap u (String.concat "" (String.split_on_char ':' prefix)) depth in
+  while not (Queue.is_empty q) do
+    let (w, path_rev, sid) = Queue.pop q in
+    let plen = List.length path_rev in
+    let path = String.concat "" (List.rev_map (fun l -> l ^ "\n") path_rev) in
+    for k = 0 to u - 1 do
+      List.iter (fun ins ->
+        let line = if ins then setline k sid else Printf.sprintf "del %d" k in
+        let op = if ins then OSet (key_of k sid, val_of (vstr sid)) else ODel (z_of_int k) in
+        let (w', out) = step false w op in
+        pr "H %s.%d py cap=%d keys=int\nDUMP 0\n%sDUMP 1\n%s\nget %d\nin %d\n%s" tag !nh cap path line k k probes;
+        incr nh;
+        if not (fatal out) then begin
+          let id = ident w' in
+          if not (Hashtbl.mem seen id) then
+            if depth > 0 && plen + 1 - plen0 >= depth then truncated := true
+            else if !nstates < maxstates then begin
+              Hashtbl.add seen id (); incr nstates;
+              if plen + 1 > !maxh then maxh := plen + 1;
+              Queue.add (w', line :: path_rev, sid + 1) q
+            end else truncated := true
+        end;
+        if Buffer.length buf > 60000 then flush_buf ()
+      ) [true; false]
+    done
+  done;
+  flush_buf ();
+  Printf.eprintf "EXPLORE cap=%d keys=%d states=%d transitions=%d longest_path=%d closed=%b\n"
+    cap u !nstates !nh !maxh (not !truncated)
+
 (* ---------- main loop ---------- *)
 let () =
+  if Array.length Sys.argv > 4 && Sys.argv.(1) = "--explore" then (explore (ios Sys.argv.(2)) (ios Sys.argv.(3)) (ios Sys.argv.(4))
+      (if Array.length Sys.argv > 5 then ios Sys.argv.(5) else 0) (if Array.length Sys.argv > 6 then Sys.argv.(6) else "-"); exit 0);
   let ic = if Array.length Sys.argv > 1 then open_in Sys.argv.(1) else stdin in
   let variant =
     if Array.length Sys.argv > 2 then Sys.argv.(2)
